@@ -10,22 +10,31 @@ EXTENDS Naturals, FiniteSets, TLC
 Names == {"alpha", "beta"}
 Filters == {"all", "alpha", "beta", "both"}      \* no ONLY | only: alpha | only: beta | only: alpha, beta
 Pass(f, S) == CASE f = "all" -> S [] f = "alpha" -> S \cap {"alpha"} [] f = "beta" -> S \cap {"beta"} [] f = "both" -> S
-VARIABLES hubF, maF, mbF, pA, pB, maFirst, visible
-vars == <<hubF, maF, mbF, pA, pB, maFirst, visible>>
+\* priv: which module (if any) is PRIVATE by default and re-exports every name it offers with an explicit PUBLIC
+\* statement - by the standard that changes nothing about what its clients see;  ren: the program's ONLY list on
+\* `ma` spells alpha as `la => alpha` (local name la)
+VARIABLES hubF, maF, mbF, pA, pB, maFirst, priv, ren, visible
+vars == <<hubF, maF, mbF, pA, pB, maFirst, priv, ren, visible>>
 VisHub == Pass(hubF, Names)
 VisMa  == Pass(maF, VisHub)
 VisMb  == Pass(mbF, VisHub)
-VisP   == Pass(pA, VisMa) \cup Pass(pB, VisMb)
+Local(n) == IF ren /\ n = "alpha" /\ pA \in {"alpha", "both"} THEN "la" ELSE n
+VisPA  == {Local(n) : n \in Pass(pA, VisMa)}
+VisP   == VisPA \cup Pass(pB, VisMb)
 \* an ONLY list may only name what the module offers
 Ok == /\ (hubF \in {"alpha", "beta", "both"} => TRUE)
       /\ (maF = "alpha" => "alpha" \in VisHub) /\ (maF = "beta" => "beta" \in VisHub) /\ (maF = "both" => VisHub = Names)
       /\ (mbF = "alpha" => "alpha" \in VisHub) /\ (mbF = "beta" => "beta" \in VisHub) /\ (mbF = "both" => VisHub = Names)
       /\ (pA = "alpha" => "alpha" \in VisMa) /\ (pA = "beta" => "beta" \in VisMa) /\ (pA = "both" => VisMa = Names)
       /\ (pB = "alpha" => "alpha" \in VisMb) /\ (pB = "beta" => "beta" \in VisMb) /\ (pB = "both" => VisMb = Names)
+      /\ (ren => pA \in {"alpha", "both"})
+      /\ (priv = "hub" => VisHub # {}) /\ (priv = "ma" => VisMa # {})
 Init == /\ hubF \in Filters /\ maF \in Filters /\ mbF \in Filters /\ pA \in Filters /\ pB \in Filters /\ maFirst \in BOOLEAN
+        /\ priv \in {"none", "hub", "ma"} /\ ren \in BOOLEAN
         /\ Ok /\ visible = VisP
 Next == UNCHANGED vars
 Spec == Init /\ [][Next]_vars
-OnlyNarrows == visible \subseteq VisHub
-BothPathsCount == \A n \in Names : n \in visible <=> (n \in Pass(pA, VisMa) \/ n \in Pass(pB, VisMb))
+OnlyNarrows == \A n \in visible : (IF n = "la" THEN "alpha" ELSE n) \in VisHub
+BothPathsCount == \A n \in Names : n \in visible <=> (n \in VisPA \/ n \in Pass(pB, VisMb))
+RenameIsLocal == "la" \in visible <=> (ren /\ "alpha" \in VisMa)
 =============================================================================
